@@ -16,7 +16,8 @@ META = {
 }
 
 DEST = ['absent', 'file', 'dir', 'link-file', 'link-dir', 'dangling', 'empty-dir']
-SELECT = ['single', 'other-then-colliding', 'colliding-then-other', 'range', 'same-path-twice-range', 'same-path-twice-list']
+SELECT = ['single', 'other-then-colliding', 'colliding-then-other', 'range', 'same-path-twice-range', 'same-path-twice-list',
+          'single-path-through-link-dotdot']
 LAYOUTS = ['home', 'top', 'alt']
 
 
@@ -31,9 +32,16 @@ def scenario(dest, kind, overwrite, select, layout):
     path = base + '/x'
     other = base + '/other'
     nodes = [W.d('/h'), W.d(base), W.f(base + '/keep', 'KEEP', 0o644, 800)] + K.sentinels('/v/out')
+    shown = path
+    if SELECT[select] == 'single-path-through-link-dotdot':
+        # Path=<base>/cur/../x with cur -> <arch>/2024: the kernel resolves it to <arch>/x, a lexical normpath to <base>/x
+        arch = base[:2] + '/arch'
+        nodes += [W.d(arch + '/2024'), W.l(base + '/cur', arch + '/2024', 705)]
+        shown = base + '/cur/../x'
+        path = arch + '/x'
     if lay == 'top':
         nodes.append(W.d('/v/.Trash', 0o1777))
-    nodes += K.trashed(td, 'x', K.quote(pv(path)), '2020-01-02T00:00:00', K.KINDS[kind], 2000)
+    nodes += K.trashed(td, 'x', K.quote(pv(shown)), '2020-01-02T00:00:00', K.KINDS[kind], 2000)
     nodes += K.trashed(td, 'other', K.quote(pv(other)), '2020-01-01T00:00:00', 'file', 2100)
     if SELECT[select].startswith('same-path-twice'):
         # a second generation of the very same original path, trashed later
@@ -54,16 +62,16 @@ def scenario(dest, kind, overwrite, select, layout):
     world = W.W(mounts=K.MOUNTS, cwd=base, nodes=nodes)
     # listing sorted by date: index 0 = other (01-01), index 1 = x (01-02)
     reply = {'single': '1', 'other-then-colliding': '0,1', 'colliding-then-other': '1,0', 'range': '0-1',
-             'same-path-twice-range': '1-2', 'same-path-twice-list': '2,1'}[SELECT[select]]
+             'same-path-twice-range': '1-2', 'same-path-twice-list': '2,1', 'single-path-through-link-dotdot': '1'}[SELECT[select]]
     args = ['--overwrite'] if overwrite else []
     steps = [{'snap': '/'}, C('restore', args, scen.env(), stdin=[reply], cwd=base), {'snap': '/'}]
-    return world, steps, td, path, other
+    return world, steps, td, path, other, shown
 
 
 def _case(dest, kind, overwrite, select, layout):
     with rt.untraced():
         rt.begin((DEST[dest], K.KINDS[kind], overwrite, SELECT[select], LAYOUTS[layout]))
-        world, steps, td, path, other = scenario(dest, kind, overwrite, select, layout)
+        world, steps, td, path, other, shown = scenario(dest, kind, overwrite, select, layout)
         label = 'dest=%s:entry=%s' % (DEST[dest], K.KINDS[kind])
         m, res = scen.run_model(world, steps)
         before, r, after = res
@@ -71,7 +79,7 @@ def _case(dest, kind, overwrite, select, layout):
             return rt.fail('C06:traceback:%s:%s' % (r['exc'].split(':')[0], label), r['exc'])
         lst = K.restore_listing(r['out'])
         twice = SELECT[select].startswith('same-path-twice')
-        if [p for (_, _, p) in lst] != ([other, path, path] if twice else [other, path]):
+        if [p for (_, _, p) in lst] != ([other, path, path] if twice else [other, shown]):
             return rt.fail('C06:harness-listing', 'unexpected listing %r' % (r['out'],))
         if twice and DEST[dest] == 'absent' and not overwrite:
             # the first selected generation is restored, the second one must be refused: the destination exists by then
@@ -137,13 +145,13 @@ def _case(dest, kind, overwrite, select, layout):
 def w_main(dest: int, kind: int, overwrite: bool, select: int, layout: int) -> str:
     """
     pre: PARTITION is None or dest == PARTITION
-    pre: 0 <= dest < 7 and 0 <= kind < 6 and 0 <= select < 6 and 0 <= layout < 3
+    pre: 0 <= dest < 7 and 0 <= kind < 6 and 0 <= select < 7 and 0 <= layout < 3
     post: _ == ''
     """
-    return _case(rt.sel(dest, 7), rt.sel(kind, 6), rt.selb(overwrite), rt.sel(select, 6), rt.sel(layout, 3))
+    return _case(rt.sel(dest, 7), rt.sel(kind, 6), rt.selb(overwrite), rt.sel(select, 7), rt.sel(layout, 3))
 
 
 def obligations(tier):
     return [CH('W_dest_kind_overwrite_select_layout', MOD, 'w_main', timeout=900, partitions=list(range(7)),
                engine='W', regime='selector', encodes=K.RESTORE_FUNCS, stubs=K.STUBS,
-               bounds='7 destination kinds x 6 entry kinds x overwrite x 6 selections (incl. two generations of the same path in one selection) x 3 layouts')]
+               bounds='7 destination kinds x 6 entry kinds x overwrite x 7 selections (incl. two generations of the same path in one selection, and a Path spelled through a symlinked directory and dot-dot) x 3 layouts')]
